@@ -4,6 +4,9 @@ import (
 	"encoding/json"
 	"fmt"
 	"os"
+
+	"fortio.org/log"
+	"grol.io/grol/extensions"
 )
 
 type checkFn func(c *Ctx)
@@ -22,6 +25,14 @@ func usage() {
 }
 
 func main() {
+	log.SetLogLevelQuiet(log.Critical) // grol logs errors/panics it handles; the harness observes them through the API
+	if len(os.Args) > 1 && os.Args[1] != "worker" {
+		// workers that need a non-default extensions.Config initialise extensions themselves
+		if err := extensions.Init(nil); err != nil {
+			fmt.Fprintln(os.Stderr, "extensions.Init:", err)
+			os.Exit(2)
+		}
+	}
 	registerProps()
 	if len(os.Args) < 2 {
 		usage()
@@ -81,6 +92,10 @@ func main() {
 		os.Exit(1)
 	case "worker":
 		workerMain(os.Args[2:])
+	case "sem":
+		semDebug(os.Args[2:])
+	case "gen":
+		genDebug(os.Args[2:])
 	default:
 		usage()
 	}
